@@ -417,9 +417,11 @@ class Channel(Transformation):
 
             T = np.dot(other.p[0], self.p[0])
             # if one, replace with the identity
-            T_arr = np.atleast_2d(T)
-            if np.allclose(T_arr, np.eye(T_arr.shape[0])):
-                return None
+            # (a symbolic parameter has no value yet, so it cannot be compared)
+            if not par_is_symbolic(T):
+                T_arr = np.atleast_2d(T)
+                if np.allclose(T_arr, np.eye(T_arr.shape[0])):
+                    return None
 
             # return a copy
             # NOTE deepcopy would make copies of the parameters which would mess things up
